@@ -10,6 +10,7 @@ from rules import common_block as cb
 from rules import reader_rules as rr
 
 F03 = "fparser.two.Fortran2003"
+RF = "fparser.common.readfortran"
 
 
 def r1_always_tried(m, ctx, blocks):
@@ -258,16 +259,48 @@ def r4_directive_sibling(m):
     return r
 
 
+def r7_inline_flag(m):
+    r = RuleResult("C11.R7", "a comment is marked inline exactly when code precedes it on its line: the trailing-comment splitter computes the "
+                             "flag at every site, whole-line comment sites never set it (an inline comment is never a directive)")
+    r.floor = 6
+    rb = m.key("FortranReaderBase", RF)
+    cd = m.classdef(rb)
+    for meth in [n for n in cd.body if isinstance(n, ast.FunctionDef)]:
+        f = m.method(rb, meth.name)
+        for c in A.calls(meth):
+            if not (isinstance(c.func, ast.Attribute) and c.func.attr == "comment_item"):
+                continue
+            r.instances += 1
+            kw = {k.arg: k.value for k in c.keywords}
+            flag = kw.get("inline_comment") or (c.args[3] if len(c.args) > 3 else None)
+            if meth.name == "handle_inline_comment":
+                ok = flag is not None and not isinstance(flag, ast.Constant)
+                r.ob(ok, "handle_inline_comment: comment_item(..., inline_comment=%s)" % (A.text(flag) if flag is not None else "<default False>"))
+                if not ok:
+                    r.fail("handle_inline_comment|inline-flag|%s" % A.text(c.args[0])[:20], "handle_inline_comment builds the comment `%s` without computing "
+                           "whether code precedes it (inline_comment %s): a trailing comment reached through this path is treated as a "
+                           "whole-line comment and, with process_directives, becomes a Directive"
+                           % (A.text(c.args[0])[:30], "is the constant " + A.text(flag) if flag is not None else "defaults to False"), m.loc(f, c))
+            else:
+                ok = flag is None or (isinstance(flag, ast.Constant) and flag.value is False)
+                r.ob(ok, "%s: whole-line comment_item(%s)" % (meth.name, A.text(c.args[0])[:30] if c.args else ""))
+                if not ok:
+                    r.fail("%s|inline-flag|%s" % (meth.name, A.text(c.args[0])[:20] if c.args else ""), "%s marks the whole-line comment `%s` as inline "
+                           "(inline_comment=%s): a directive line there stays a Comment under process_directives"
+                           % (meth.name, A.text(c.args[0])[:30] if c.args else "", A.text(flag)), m.loc(f, c))
+    return r
+
+
 def run(m, tier):
     ctx = cb.get_ctx(m)
     blocks = tables.engine_instances(m, "BlockBase")
     results = [r1_always_tried(m, ctx, blocks), r2_items(m, ctx), r2_nodes(m, ctx, blocks),
                rr.rule_ignore_filter(m, "C11.R3"), r4_directive_sibling(m), rr.rule_quote_state(m, "C11.R5"),
-               rr.rule_queue(m, "C11.R6")]
+               rr.rule_queue(m, "C11.R6"), r7_inline_flag(m)]
     expl = ("Decides structural clauses of C11: per call site of the block engine the class list tried at every position contains the "
             "comment, include, preprocessor (and, exactly under process_directives, directive) classes; comments are collected before "
             "each opening statement and around every program unit, with both collectors in every round; every reader item and every "
             "node obtained from the reader is kept or given back on every path (typestate), and a no-match restores everything in "
             "reverse; the ignore filter sits on the single exit of the item loop; Directive and Comment share their code; a comment "
-            "ends character context; the item queue keeps comments behind their statement. Does NOT decide exact placement for every position.")
+            "ends character context; the item queue keeps comments behind their statement; the inline flag is computed at every trailing-comment site and never set for whole-line comments. Does NOT decide exact placement for every position.")
     return results, expl
